@@ -589,7 +589,7 @@ def _extract_waveform(traces, sample, channel_ids=None, n_samples_waveforms=None
         n_channels = traces.shape[1]
     else:
         n_channels = len(channel_ids)
-    t0, t1 = int(sample - a), int(sample + b)
+    t0, t1 = int(sample) - a, int(sample) + b
     # Extract the waveforms.
     w = traces[max(0, t0):t1][:, channel_ids]
     if not isinstance(channel_ids, slice):
